@@ -129,8 +129,11 @@ Qed.
 (* ---- the change loop against the reference semantics ---- *)
 Lemma deep_equal_norm : forall g j, deep_equal g j = true -> norm g = j.
 Proof.
-  intros [n|n|s] [m|t] H; cbn in H; try discriminate; cbn [norm].
+  intros g j H. destruct g, j; cbn in H; try discriminate; cbn [norm].
   - apply N.eqb_eq in H. subst. reflexivity.
+  - apply beq_eq in H. subst. reflexivity.
+  - reflexivity.
+  - apply Bool.eqb_prop in H. subst. reflexivity.
   - apply beq_eq in H. subst. reflexivity.
 Qed.
 
@@ -192,8 +195,9 @@ Proof.
   destruct rev as [|x rev]; cbn [is_nil].
   - right. exists m0, m1, []. repeat split; auto.
   - destruct (idxs c) as [ks|].
-    + destruct (fits c (RModel m0) && fits c (RModel m1)).
+    + destruct (decode c (RModel m0)) as [b0|]; [destruct (decode c (RModel m1)) as [a0|]|].
       * right. exists m0, m1, (x :: rev). repeat split; auto. right. split; [discriminate|]. eauto.
+      * left. eauto.
       * left. eauto.
     + right. exists m0, m1, (x :: rev). repeat split; auto. right. split; [discriminate|]. eauto.
 Qed.
@@ -256,7 +260,7 @@ Proof.
       * eexists. split; [reflexivity|]. unfold start. cbn. apply veqv_refl.
       * eexists. split; [reflexivity|]. unfold start. rewrite V. apply veqv_refl.
     + destruct (st_val s) as [r|] eqn:V.
-      * destruct (fits c r); cbn; [|reflexivity].
+      * destruct (decode c r); cbn; [|reflexivity].
         eexists. split; [reflexivity|]. unfold start. cbn. apply veqv_refl.
       * destruct (idxs c); cbn; [|reflexivity].
         eexists. split; [reflexivity|]. unfold start. rewrite V. apply veqv_refl.
@@ -413,7 +417,7 @@ Proof.
     destruct (c_pkg c).
     + destruct (st_val s) as [r|] eqn:VS; cbn; [reflexivity|]. rewrite VS. reflexivity.
     + destruct (st_val s) as [r|] eqn:VS.
-      * destruct (fits c r) eqn:F; cbn; [reflexivity|]. rewrite VS. cbn. exact V.
+      * destruct (decode c r) eqn:F; cbn; [reflexivity|]. rewrite VS. cbn. exact V.
       * destruct (idxs c); cbn; rewrite VS; reflexivity.
 Qed.
 
@@ -427,10 +431,42 @@ Proof.
     rewrite final_cons. apply IH; [exact D| |exact E2]. apply fire_fits; assumption.
 Qed.
 
+(* a value of the handler's Type unmarshals into itself *)
+Lemma vfits_vdec : forall t v, vfits t v = true -> vdec t v = Some v.
+Proof. intros [|] v H; [reflexivity|]. destruct v; cbn in H; try discriminate. reflexivity. Qed.
+Lemma fits_dec_list : forall t l, forallb (vfits t) l = true -> dec_list t l = Some l.
+Proof.
+  intros t. induction l as [|v l IH]; cbn [forallb dec_list]; intros H; [reflexivity|].
+  apply andb_true_iff in H. destruct H as [H1 H2]. rewrite (vfits_vdec _ _ H1), (IH H2). reflexivity.
+Qed.
+Lemma fits_dec_model : forall t m,
+  forallb (fun kv : key * jval => vfits t (snd kv)) m = true -> dec_model t m = Some m.
+Proof.
+  intros t. induction m as [|[k v] m IH]; cbn [forallb dec_model snd]; intros H; [reflexivity|].
+  apply andb_true_iff in H. destruct H as [H1 H2]. rewrite (vfits_vdec _ _ H1), (IH H2). reflexivity.
+Qed.
+Lemma fits_decode : forall c r, fits c r = true -> decode c r = Some r.
+Proof.
+  intros c r. unfold fits, decode. destruct (c_type c), r as [m|l]; try discriminate; intros H.
+  - rewrite (fits_dec_model _ _ H). reflexivity.
+  - rewrite (fits_dec_list _ _ H). reflexivity.
+Qed.
+(* into an interface-valued Type nothing is converted *)
+Lemma dec_list_any : forall l, dec_list TyAny l = Some l.
+Proof. induction l as [|v l IH]; cbn [dec_list vdec]; [reflexivity|]. rewrite IH. reflexivity. Qed.
+Lemma dec_model_any : forall m, dec_model TyAny m = Some m.
+Proof. induction m as [|[k v] m IH]; cbn [dec_model vdec]; [reflexivity|]. rewrite IH. reflexivity. Qed.
+Lemma decode_any : forall c r r', c_ty c = TyAny -> decode c r = Some r' -> r' = r.
+Proof.
+  intros c r r' T. unfold decode. rewrite T. destruct (c_type c), r as [m|l]; try discriminate.
+  - rewrite dec_model_any. cbn. congruence.
+  - rewrite dec_list_any. cbn. congruence.
+Qed.
+
 Lemma value_is_get : forall c s, ofits c (st_val s) = true -> value_resource c s = get_resource c s.
 Proof.
   intros c s H. unfold value_resource, get_resource. destruct (st_val s) as [r|]; [|reflexivity].
-  cbn in H. rewrite H. reflexivity.
+  cbn in H. rewrite (fits_decode _ _ H). reflexivity.
 Qed.
 
 (* ---- served_is_fold ---- *)
@@ -541,21 +577,29 @@ Qed.
 
 Lemma delete_data_exact_pf : forall c s l,
   o_call (fire c s EDelete) = Some l ->
-  l = LDelete (st_val s) /\ o_pub (fire c s EDelete) = Some PDelete.
+  l = LDelete (option_map (delete_view c) (st_val s)) /\ o_pub (fire c s EDelete) = Some PDelete.
 Proof.
-  intros c s l. cbn [fire]. unfold apply_delete.
+  intros c s l. cbn [fire]. unfold apply_delete, delete_view.
   destruct (c_pkg c).
   - destruct (st_val s) as [r|] eqn:V; cbn; intros E; inversion E; auto.
-  - destruct (st_val s) as [r|] eqn:V.
-    + destruct (fits c r); cbn; intros E; inversion E; auto.
+  - destruct (st_val s) as [r|] eqn:V; cbn [option_map].
+    + destruct (decode c r); cbn; intros E; inversion E; auto.
     + destruct (idxs c); cbn; intros E; inversion E; auto.
+Qed.
+
+Lemma delete_view_typed_pf : forall c r, fits c r = true -> delete_view c r = r.
+Proof. intros c r H. unfold delete_view. rewrite (fits_decode _ _ H). reflexivity. Qed.
+Lemma delete_view_any_pf : forall c r, c_ty c = TyAny -> delete_view c r = r.
+Proof.
+  intros c r T. unfold delete_view. destruct (decode c r) as [r'|] eqn:D; [|reflexivity].
+  apply (decode_any _ _ _ T D).
 Qed.
 
 Lemma changed_jchanged_pf : forall m k a, no_int a = true -> changed m k a = jchanged m k a.
 Proof.
   intros m k a H. unfold changed, jchanged. destruct a as [g|]; [|reflexivity].
   destruct (mget k m) as [ov|]; [|reflexivity].
-  destruct g as [n|n|t]; cbn in H; try discriminate; destruct ov; reflexivity.
+  destruct g; cbn in H; try discriminate; destruct ov; reflexivity.
 Qed.
 
 (* ---- unappliable_silent ---- *)
@@ -739,19 +783,36 @@ Proof.
     + exact H1.
 Qed.
 
+Lemma dec_exact : forall c r r',
+  c_ty c = TyAny \/ fits c r = true -> decode c r = Some r' -> r' = r.
+Proof.
+  intros c r r' [H|H] D.
+  - apply (decode_any _ _ _ H D).
+  - rewrite (fits_decode _ _ H) in D. congruence.
+Qed.
+
 Lemma fire_idx_ok : forall c ks s e,
   c_pkg c = ResB -> c_type c = TModel -> c_idx c = Some ks -> c_def c = None ->
+  c_ty c = TyAny \/ (ofits c (st_val s) = true /\ ev_fits c e = true) ->
   keys_nonempty ks -> idx_ok ks s -> idx_ok ks (o_state (fire c s e)).
 Proof.
-  intros c ks s e P T IX D NE OK.
+  intros c ks s e P T IX D TA NE OK.
   assert (idxs c = Some ks) as IXS by (unfold idxs; rewrite P, T; exact IX).
   destruct e as [cs|v i|i|d|]; cbn [fire]; rewrite ?T; try exact OK.
-  - destruct cs as [|c0 cs0]; [exact OK|]. cbn [is_nil]. set (cs := c0 :: cs0).
+  - destruct cs as [|c0 cs0]; [exact OK|]. cbn [is_nil]. set (cs := c0 :: cs0) in *.
     unfold apply_change, start. rewrite T, D, IXS.
     destruct (st_val s) as [[m0|l]|] eqn:V; try exact OK.
-    destruct (change_loop cs m0) as [m1 rev].
+    destruct (change_loop cs m0) as [m1 rev] eqn:L.
     destruct rev as [|x rev]; cbn [is_nil]; [exact OK|].
-    destruct (fits c (RModel m0) && fits c (RModel m1)); cbn [o_state]; [|exact OK].
+    destruct (decode c (RModel m0)) as [b0|] eqn:D0; [|exact OK].
+    destruct (decode c (RModel m1)) as [a0|] eqn:D1; [|exact OK].
+    assert (b0 = RModel m0 /\ a0 = RModel m1) as [E0 E1].
+    { destruct TA as [TA|[F E]].
+      - split; eapply dec_exact; eauto.
+      - cbn [ofits] in F. split; [eapply dec_exact; eauto|].
+        eapply dec_exact; [right|exact D1]. unfold fits in *. rewrite T in *. cbn [ev_fits] in E.
+        pose proof (fits_change_loop (c_ty c) cs m0 E F) as F1. rewrite L in F1. exact F1. }
+    subst b0 a0. cbn [o_state].
     intros e. cbn [st_val st_idx idx_spec].
     rewrite (idx_change_in ks 0 (RModel m0) (RModel m1) (st_idx s) [] NE).
     + cbn [In]. tauto.
@@ -759,19 +820,33 @@ Proof.
     + intros e0. cbn [In]. rewrite (OK e0), V. cbn [idx_spec]. tauto.
   - unfold apply_create. rewrite D, IXS.
     destruct (st_val s) as [r|] eqn:V; [exact OK|]. cbn [o_state].
-    intros e. cbn [st_idx st_val idx_spec]. rewrite idx_create_in. pose proof (OK e) as O. rewrite V in O. cbn [idx_spec In] in O. tauto.
+    intros e. cbn [st_idx st_val idx_spec]. rewrite idx_create_in.
+    pose proof (OK e) as O. rewrite V in O. cbn [idx_spec In] in O. tauto.
   - unfold apply_delete. rewrite P, IXS.
     destruct (st_val s) as [r|] eqn:V; [|exact OK].
-    destruct (fits c r); cbn [o_state]; [|exact OK].
-    intros e. cbn [st_idx st_val idx_spec]. rewrite idx_delete_in. pose proof (OK e) as O. rewrite V in O. cbn [idx_spec] in O. cbn [In]. tauto.
+    destruct (decode c r) as [r'|] eqn:D0; cbn [o_state]; [|exact OK].
+    assert (r' = r) as E0.
+    { eapply dec_exact; [|exact D0]. destruct TA as [TA|[F _]]; [left; exact TA|right; exact F]. }
+    subst r'.
+    intros e. cbn [st_idx st_val idx_spec]. rewrite idx_delete_in.
+    pose proof (OK e) as O. rewrite V in O. cbn [idx_spec] in O. cbn [In]. tauto.
 Qed.
 
 Lemma idx_consistent_pf : forall c ks s es,
   c_pkg c = ResB -> c_type c = TModel -> c_idx c = Some ks -> c_def c = None ->
+  c_ty c = TyAny \/ well_typed c s es = true ->
   keys_nonempty ks -> idx_ok ks s -> idx_ok ks (final c s es).
 Proof.
-  intros c ks s es P T IX D NE. revert s. induction es as [|e es IH]; intros s OK; [exact OK|].
-  rewrite final_cons. apply IH. apply fire_idx_ok; assumption.
+  intros c ks s es P T IX D TA NE. revert s TA. induction es as [|e es IH]; intros s TA OK; [exact OK|].
+  rewrite final_cons.
+  destruct TA as [TA|W].
+  - apply IH; [left; exact TA|]. apply fire_idx_ok; auto.
+  - unfold well_typed in W. cbn [forallb] in W.
+    apply andb_true_iff in W. destruct W as [W E]. apply andb_true_iff in W. destruct W as [DF V].
+    apply andb_true_iff in E. destruct E as [E1 E2].
+    apply IH.
+    + right. unfold well_typed. rewrite DF, E2, (fire_fits c s e DF V E1). reflexivity.
+    + apply fire_idx_ok; auto.
 Qed.
 
 Lemma reopen_same_pf : forall s, reopen s = s.
